@@ -16,6 +16,7 @@ import CirkitModel.Model.Sym
 import CirkitModel.Properties.C03
 import CirkitModel.Properties.C06
 import CirkitModel.Properties.C07
+import CirkitModel.Properties.C08
 
 namespace Cirkit.C09
 
@@ -138,6 +139,29 @@ theorem query_accepts_iff (c : SCirc R) :
     c.queryPre = none ↔ (c.isSmooth = true ∧ c.isDecomposable = true) := by
   unfold SCirc.queryPre
   cases hs : c.isSmooth <;> cases hd : c.isDecomposable <;> simp
+
+/-! ### non-vacuity: every outcome of the checks occurs -/
+
+/-- a sum layer over two leaves with different variables: not smooth -/
+def nonSmoothCirc : SCirc Rat :=
+  { layers := #[
+      ⟨.embedding 0 2 2 (.const [2, 2] #[1, 2, 3, 4]), []⟩,
+      ⟨.embedding 1 2 2 (.const [2, 2] #[1, 2, 3, 4]), []⟩,
+      ⟨.sum 2 1 2 (.const [1, 4] #[1, 2, 3, 4]), [0, 1]⟩],
+    outputs := [2] }
+
+example : C08.exampleCirc.integratePre [0] = none := by decide
+example : C08.exampleCirc.integratePre [] = some .value := by decide
+example : C08.exampleCirc.integratePre [0, 5] = some .value := by decide
+example : nonSmoothCirc.integratePre [0] = some .structural := by decide
+example : C08.exampleCirc.differentiatePre 1 = none := by decide
+example : C08.exampleCirc.differentiatePre 0 = some .value := by decide
+example : nonSmoothCirc.differentiatePre 1 = some .structural := by decide
+example : nonSmoothCirc.evidencePre [1] = none := by decide
+example : nonSmoothCirc.evidencePre [2] = some .value := by decide
+example : C08.exampleCirc.multiplyPre C08.exampleCirc = none := by decide
+example : C08.exampleCirc.multiplyPre nonSmoothCirc = some .structural := by decide
+example : nonSmoothCirc.queryPre = some .value := by decide
 
 end Decision
 
